@@ -144,6 +144,12 @@ func c09Run(e *Env) {
 			return ctx.Err()
 		}
 	}
+	// the socket is the library's to close (Dial, WithCloseSocket), or it belongs to the application (udp.Client(conn),
+	// tcp.Client(conn), dtls.Client(conn) as they come): Close then leaves it open - and still has to complete
+	ownSocket := t.Chance(1, 4) && peer != pStallHandshake && peer != pStallStream // (a write blocked on a stalled stream is the known finding C09.R1; on a socket that Close leaves open not even Close frees it)
+	if ownSocket {
+		e.Probe("socket.ownedByTheApplication")
+	}
 	if IsDatagram(tr) {
 		cfg := SimUDPConfig(int32(t.Choose(65536)))
 		cfg.TransmissionNStart = uint32(1 + t.Choose(2)*7)
@@ -155,13 +161,16 @@ func c09Run(e *Env) {
 			cfg.ReceivedMessageQueueSize = qsize
 			options.WithMux(router).UDPClientApply(&cfg)
 		}
-		w = NewCWorld(e, CWorldCfg{Transport: tr, UDP: cfg, Handshake: handshake})
+		w = NewCWorld(e, CWorldCfg{Transport: tr, UDP: cfg, Handshake: handshake, OwnSocket: ownSocket})
 		if w != nil && w.PC != nil {
 			hsClosed = w.PC.ClosedCh()
 		}
 	} else {
 		topts := []tcp.Option{
-			options.WithLimitClientParallelRequest(limit), options.WithLimitClientEndpointParallelRequest(0), options.WithCloseSocket(),
+			options.WithLimitClientParallelRequest(limit), options.WithLimitClientEndpointParallelRequest(0),
+		}
+		if !ownSocket {
+			topts = append(topts, options.WithCloseSocket())
 		}
 		if busy {
 			topts = append(topts, options.WithMux(router), options.WithReceivedMessageQueueSize(qsize))
@@ -178,6 +187,9 @@ func c09Run(e *Env) {
 	}
 	if w == nil {
 		return
+	}
+	if ownSocket {
+		e.OnCleanup(w.CloseSocketByOwner) // the application closes its socket in the end
 	}
 	if peer == pStallStream {
 		w.SC.LimitOut(8) // the peer stopped reading: the send buffer is full after the first frame
